@@ -1,9 +1,927 @@
 package props
 
-import "verif/internal/core"
+import (
+	"bufio"
+	"bytes"
+	"crypto/sha256"
+	"encoding/hex"
+	"encoding/json"
+	"fmt"
+	"io"
+	"math/rand"
+	"net"
+	"path/filepath"
+	"strconv"
+	"strings"
+	"sync"
+	"time"
 
-// C15 — stub, replaced by the real check.
+	"verif/internal/core"
+	"verif/internal/rawhttp"
+)
+
+// ---- E1: byte streams through the two real binaries ---------------------------------
+
+// c15Dir is the plan of one direction of one bridged connection.
+type c15Dir struct {
+	Len   int64 `json:"len"`        // total stream length including the 16-byte header
+	Write int   `json:"write_size"` // bytes per Write call; 0 = random 1..70000
+	Read  int   `json:"read_buf"`   // receiver buffer size
+}
+
+// c15Conn is one case: one bridged connection with traffic in both directions.
+type c15Conn struct {
+	Idx         int    `json:"idx"`
+	Round       int    `json:"round"`
+	Conc        int    `json:"concurrency"`
+	ServerFirst bool   `json:"server_first"` // far end starts sending before it has read anything (solo rounds only)
+	C2S         c15Dir `json:"c2s"`
+	S2C         c15Dir `json:"s2c"`
+	Class       string `json:"class"`
+}
+
+// c15DirRes is what both ends observed for one direction.
+type c15DirRes struct {
+	Sent        int64  `json:"sent"`
+	SentSHA     string `json:"sent_sha256"`
+	SendErr     string `json:"send_err,omitempty"`
+	SendStall   bool   `json:"send_stalled,omitempty"`
+	Recv        int64  `json:"received"`
+	RecvSHA     string `json:"received_sha256"`
+	RecvErr     string `json:"recv_err,omitempty"`
+	RecvStall   bool   `json:"recv_stalled,omitempty"`
+	Checkpoints int    `json:"checkpoints"`
+	BadOffset   int64  `json:"first_bad_offset"`
+	BadGot      string `json:"bad_got,omitempty"`
+	BadWant     string `json:"bad_want,omitempty"`
+	values      [256]bool
+}
+
+type c15Live struct {
+	Spec       *c15Conn  `json:"spec"`
+	C2S        c15DirRes `json:"c2s"`
+	S2C        c15DirRes `json:"s2c"`
+	DialErr    string    `json:"dial_err,omitempty"`
+	NotBridged bool      `json:"far_end_never_saw_connection,omitempty"`
+	Aborted    bool      `json:"aborted_after_mismatch,omitempty"`
+
+	mu      sync.Mutex
+	claim   int // 0 unclaimed, 1 far end attached, 2 abandoned
+	cli     net.Conn
+	srv     net.Conn
+	srvDone chan struct{}
+}
+
+func (l *c15Live) abort() {
+	l.mu.Lock()
+	l.Aborted = true
+	c, s := l.cli, l.srv
+	l.mu.Unlock()
+	if c != nil {
+		c.Close()
+	}
+	if s != nil {
+		s.Close()
+	}
+}
+
+func (l *c15Live) aborted() bool { l.mu.Lock(); defer l.mu.Unlock(); return l.Aborted }
+
+type c15Engine struct {
+	r     *core.Run
+	topo  *bridgeTopo
+	srv   *bridgeTCPServer
+	stall time.Duration
+
+	mu        sync.Mutex
+	lives     map[int]*c15Live
+	solo      *c15Live
+	strays    []string
+	open      int
+	maxOpen   int
+	chunkHist map[string]int
+}
+
+func (e *c15Engine) track(d int) {
+	e.mu.Lock()
+	e.open += d
+	if e.open > e.maxOpen {
+		e.maxOpen = e.open
+	}
+	e.mu.Unlock()
+}
+
+func c15ChunkClass(n int) string {
+	switch {
+	case n == 1:
+		return "1"
+	case n < 8:
+		return "2-7"
+	case n < 1024:
+		return "8-1023"
+	case n == 1024:
+		return "1024"
+	case n < 32768:
+		return "1025-32767"
+	case n == 32768:
+		return "32768"
+	default:
+		return ">32768"
+	}
+}
+
+// c15Send writes the stream with the planned segmentation.
+func (e *c15Engine) c15Send(l *c15Live, conn net.Conn, st *bridgeStream, d c15Dir, rng *rand.Rand, res *c15DirRes) {
+	maxw := d.Write
+	if maxw == 0 {
+		maxw = 70000
+	}
+	buf := make([]byte, maxw)
+	h := sha256.New()
+	for res.Sent < d.Len {
+		n := d.Write
+		if n == 0 {
+			n = 1 + rng.Intn(70000)
+		}
+		if rem := d.Len - res.Sent; int64(n) > rem {
+			n = int(rem)
+		}
+		st.Next(buf[:n])
+		h.Write(buf[:n])
+		conn.SetWriteDeadline(time.Now().Add(e.stall))
+		k, err := conn.Write(buf[:n])
+		res.Sent += int64(k)
+		if err != nil {
+			if bridgeIsTimeout(err) {
+				res.SendStall = true
+			}
+			res.SendErr = err.Error()
+			break
+		}
+	}
+	res.SentSHA = hex.EncodeToString(h.Sum(nil))
+}
+
+// c15Recv reads with the planned buffer size and compares every chunk with
+// the regenerated stream (each read is a checkpoint of the prefix property).
+func (e *c15Engine) c15Recv(l *c15Live, conn net.Conn, v *bridgeVerifier, d c15Dir, pre []byte, res *c15DirRes) {
+	hist := map[string]int{}
+	ok := true
+	if len(pre) > 0 {
+		ok = v.Check(pre)
+	}
+	buf := make([]byte, d.Read)
+	for ok && v.Received < d.Len {
+		conn.SetReadDeadline(time.Now().Add(e.stall))
+		n, err := conn.Read(buf)
+		if n > 0 {
+			hist[c15ChunkClass(n)]++
+			if ok = v.Check(buf[:n]); !ok {
+				break
+			}
+		}
+		if err != nil {
+			if bridgeIsTimeout(err) {
+				res.RecvStall = true
+			}
+			res.RecvErr = err.Error()
+			break
+		}
+	}
+	if ok && v.Received == d.Len && res.RecvErr == "" {
+		// one more short look for bytes beyond the announced end (can only miss, never accuse)
+		conn.SetReadDeadline(time.Now().Add(30 * time.Millisecond))
+		if n, _ := conn.Read(buf); n > 0 {
+			ok = v.Check(buf[:n])
+		}
+	}
+	res.Recv, res.RecvSHA, res.Checkpoints = v.Received, v.SHA(), v.Checkpoints
+	res.BadOffset, res.BadGot, res.BadWant = v.BadOffset, v.BadGot, v.BadWant
+	res.values = v.Values
+	e.mu.Lock()
+	for k, n := range hist {
+		e.chunkHist[k] += n
+	}
+	e.mu.Unlock()
+	if !ok {
+		l.abort() // unblock the other three pumps of this connection
+	}
+}
+
+// serve is the far TCP end of every bridged connection.
+func (e *c15Engine) serve(c *net.TCPConn, seq int) {
+	defer c.Close()
+	e.track(1)
+	defer e.track(-1)
+	e.mu.Lock()
+	l := e.solo
+	e.solo = nil
+	e.mu.Unlock()
+	var pre []byte
+	if l == nil {
+		hdr := make([]byte, bridgeHdrLen)
+		c.SetReadDeadline(time.Now().Add(e.stall))
+		if n, err := io.ReadFull(c, hdr); err != nil {
+			if n > 0 {
+				e.mu.Lock()
+				e.strays = append(e.strays, fmt.Sprintf("accept #%d: only %d header bytes (%x): %v", seq, n, hdr[:n], err))
+				e.mu.Unlock()
+			}
+			return
+		}
+		dir, idx, _, ok := bridgeParseHdr(hdr)
+		if ok && dir == 'c' {
+			e.mu.Lock()
+			l = e.lives[idx]
+			e.mu.Unlock()
+		}
+		if l == nil {
+			e.mu.Lock()
+			e.strays = append(e.strays, fmt.Sprintf("accept #%d: first 16 bytes %x are not the header of any open connection", seq, hdr))
+			e.mu.Unlock()
+			return
+		}
+		pre = hdr
+	}
+	l.mu.Lock()
+	if l.claim == 2 { // given up by its client (dial failure / far end too late)
+		l.mu.Unlock()
+		return
+	}
+	if l.claim != 0 {
+		l.mu.Unlock()
+		e.mu.Lock()
+		e.strays = append(e.strays, fmt.Sprintf("accept #%d: second far-end connection for connection %d", seq, l.Spec.Idx))
+		e.mu.Unlock()
+		return
+	}
+	l.claim = 1
+	l.srv = c
+	l.mu.Unlock()
+	defer close(l.srvDone)
+	sp := l.Spec
+	var wg sync.WaitGroup
+	wg.Add(1)
+	go func() {
+		defer wg.Done()
+		e.c15Send(l, c, bridgeNewStream(e.r.Seed, sp.Idx, 's', sp.S2C.Len), sp.S2C, rand.New(rand.NewSource(e.r.Seed^int64(sp.Idx)<<20^2)), &l.S2C)
+	}()
+	e.c15Recv(l, c, bridgeNewVerifier(bridgeNewStream(e.r.Seed, sp.Idx, 'c', sp.C2S.Len)), sp.C2S, pre, &l.C2S)
+	wg.Wait()
+}
+
+// client runs the near end of one connection and waits for the far end.
+func (e *c15Engine) client(l *c15Live) {
+	sp := l.Spec
+	conn, err := net.DialTimeout("tcp", e.topo.FrontAddr, 10*time.Second)
+	if err != nil {
+		l.DialErr = err.Error()
+		l.mu.Lock()
+		l.claim = 2
+		l.mu.Unlock()
+		return
+	}
+	defer conn.Close()
+	l.mu.Lock()
+	l.cli = conn
+	l.mu.Unlock()
+	var wg sync.WaitGroup
+	wg.Add(2)
+	go func() {
+		defer wg.Done()
+		e.c15Send(l, conn, bridgeNewStream(e.r.Seed, sp.Idx, 'c', sp.C2S.Len), sp.C2S, rand.New(rand.NewSource(e.r.Seed^int64(sp.Idx)<<20^1)), &l.C2S)
+	}()
+	go func() {
+		defer wg.Done()
+		e.c15Recv(l, conn, bridgeNewVerifier(bridgeNewStream(e.r.Seed, sp.Idx, 's', sp.S2C.Len)), sp.S2C, nil, &l.S2C)
+	}()
+	wg.Wait()
+	select {
+	case <-l.srvDone:
+	case <-time.After(e.stall):
+		l.mu.Lock()
+		if l.claim == 0 {
+			l.claim = 2
+			l.NotBridged = true
+			l.mu.Unlock()
+			return
+		}
+		l.mu.Unlock()
+		<-l.srvDone // attached: its pumps are bounded by their own progress deadlines
+	}
+}
+
+// round runs the given connections concurrently and returns when all ended.
+func (e *c15Engine) round(specs []*c15Conn) []*c15Live {
+	lives := make([]*c15Live, len(specs))
+	e.mu.Lock()
+	for i, sp := range specs {
+		lives[i] = &c15Live{Spec: sp, srvDone: make(chan struct{})}
+		lives[i].C2S.BadOffset, lives[i].S2C.BadOffset = -1, -1
+		e.lives[sp.Idx] = lives[i]
+	}
+	if len(specs) == 1 && specs[0].ServerFirst {
+		e.solo = lives[0]
+	}
+	e.mu.Unlock()
+	var wg sync.WaitGroup
+	for _, l := range lives {
+		wg.Add(1)
+		go func(l *c15Live) { defer wg.Done(); e.client(l) }(l)
+	}
+	wg.Wait()
+	e.mu.Lock()
+	e.solo = nil
+	for _, sp := range specs {
+		delete(e.lives, sp.Idx)
+	}
+	e.mu.Unlock()
+	return lives
+}
+
+func c15LenClass(n int64) string {
+	switch {
+	case n <= bridgeHdrLen+1:
+		return "hdr"
+	case n < 4096:
+		return "<4k"
+	case n <= 65537:
+		return "<=64k+1"
+	case n < 1<<20:
+		return "<1M"
+	case n < 4<<20:
+		return "<4M"
+	default:
+		return ">=4M"
+	}
+}
+
+func c15WriteClass(w int) string {
+	if w == 0 {
+		return "rand"
+	}
+	return strconv.Itoa(w)
+}
+
+var c15WriteSizes = []int{1, 2, 1023, 1024, 1025, 4096, 32768, 65537, 0}
+var c15ReadSizes = []int{1, 7, 1024, 65536}
+
+func c15PickLen(rng *rand.Rand, quick bool, w, rb int) int64 {
+	pick := func(v ...int64) int64 { return v[rng.Intn(len(v))] }
+	switch {
+	case w == 1 || rb == 1:
+		return pick(16, 17, 31, 300, 4097, 65536)
+	case w == 2 || rb == 7:
+		return pick(16, 1000, 65537, 262144)
+	case quick:
+		return pick(1040, 65537, 512<<10, 1<<20+1, 4<<20)
+	}
+	return pick(65537, 512<<10, 2<<20, 4<<20+1, 8<<20, 8<<20)
+}
+
+// c15Plan is the case list: a pure function of seed and tier.
+func c15Plan(r *core.Run) [][]*c15Conn {
+	var concs []int
+	if r.Quick() {
+		concs = []int{1, 1, 1, 1, 4, 16, 48}
+	} else {
+		for i := 0; i < 8; i++ {
+			concs = append(concs, 1)
+		}
+		for i := 0; i < 8; i++ {
+			concs = append(concs, 4)
+		}
+		for i := 0; i < 8; i++ {
+			concs = append(concs, 16)
+		}
+		for i := 0; i < 9; i++ {
+			concs = append(concs, 48)
+		}
+	}
+	rng := r.Rand("c15-plan")
+	type combo struct{ w, rb int }
+	var combos []combo
+	for _, w := range c15WriteSizes {
+		for _, rb := range c15ReadSizes {
+			combos = append(combos, combo{w, rb})
+		}
+	}
+	permA := rng.Perm(len(combos))
+	permB := rng.Perm(len(combos))
+	var rounds [][]*c15Conn
+	idx := 0
+	for ri, conc := range concs {
+		var round []*c15Conn
+		for k := 0; k < conc; k++ {
+			a := combos[permA[idx%len(combos)]]
+			b := combos[permB[(idx+idx/len(combos))%len(combos)]]
+			sp := &c15Conn{Idx: idx, Round: ri, Conc: conc,
+				C2S: c15Dir{Write: a.w, Read: a.rb}, S2C: c15Dir{Write: b.w, Read: b.rb}}
+			sp.C2S.Len = c15PickLen(rng, r.Quick(), a.w, a.rb)
+			sp.S2C.Len = c15PickLen(rng, r.Quick(), b.w, b.rb)
+			first := "client-first"
+			if conc == 1 && ri%2 == 1 {
+				sp.ServerFirst = true
+				first = "server-first"
+			}
+			sp.Class = fmt.Sprintf("conc=%d|%s|c2s:w%s/r%d/%s|s2c:w%s/r%d/%s", conc, first,
+				c15WriteClass(a.w), a.rb, c15LenClass(sp.C2S.Len), c15WriteClass(b.w), b.rb, c15LenClass(sp.S2C.Len))
+			round = append(round, sp)
+			idx++
+		}
+		rounds = append(rounds, round)
+	}
+	return rounds
+}
+
+// c15Diagnose looks for the received bytes further on in the sender's stream.
+func c15Diagnose(seed int64, idx int, dir byte, total, off int64, gotHex string) string {
+	got, _ := hex.DecodeString(gotHex)
+	if len(got) < 8 || off > 64<<20 {
+		return ""
+	}
+	st := bridgeNewStream(seed, idx, dir, total)
+	end := off + 2<<20
+	if end > total {
+		end = total
+	}
+	if end <= off {
+		return ""
+	}
+	all := make([]byte, end)
+	st.Next(all)
+	if k := bytes.Index(all[off:], got[:8]); k > 0 {
+		return fmt.Sprintf("; the received bytes equal the sender's stream %d bytes further on, i.e. %d bytes were dropped at offset %d", k, k, off)
+	}
+	if off >= 8 {
+		lo := off - 2<<20
+		if lo < 0 {
+			lo = 0
+		}
+		if k := bytes.LastIndex(all[lo:off], got[:8]); k >= 0 {
+			return fmt.Sprintf("; the received bytes repeat the sender's stream from offset %d", lo+int64(k))
+		}
+	}
+	return ""
+}
+
+type c15Candidate struct {
+	l    *c15Live
+	dir  string
+	what string
+}
+
+// judge applies the oracle to one finished connection; stalls are returned
+// as candidates for the solo re-run.
+func (e *c15Engine) judge(l *c15Live, confirmRun bool) (cands []c15Candidate, bad bool) {
+	r, sp := e.r, l.Spec
+	if l.DialErr != "" {
+		r.Broken(fmt.Sprintf("connection %d: cannot connect to the bridge frontend: %s", sp.Idx, l.DialErr))
+		return nil, false
+	}
+	if l.NotBridged {
+		cands = append(cands, c15Candidate{l, "c2s", fmt.Sprintf("the far TCP end never saw connection %d although the client wrote %d bytes", sp.Idx, l.C2S.Sent)})
+	}
+	for _, d := range []struct {
+		name string
+		tag  byte
+		plan c15Dir
+		res  *c15DirRes
+	}{{"c2s", 'c', sp.C2S, &l.C2S}, {"s2c", 's', sp.S2C, &l.S2C}} {
+		res := d.res
+		switch {
+		case res.BadOffset >= 0:
+			bad = true
+			kind := "bytes-altered"
+			if res.BadOffset >= d.plan.Len {
+				kind = "bytes-beyond-end"
+			}
+			msg := fmt.Sprintf("connection %d (%s) direction %s: receiver's bytes are not a prefix of the sender's: first differing offset %d of %d, got %s want %s (sender had written %d bytes)%s",
+				sp.Idx, sp.Class, d.name, res.BadOffset, d.plan.Len, res.BadGot, res.BadWant, res.Sent,
+				c15Diagnose(r.Seed, sp.Idx, d.tag, d.plan.Len, res.BadOffset, res.BadGot))
+			r.Violate("C15:"+kind+":"+d.name, msg, sp, l)
+		case res.Recv < d.plan.Len:
+			if l.aborted() || l.NotBridged {
+				continue // torn down because of the other direction / already a candidate
+			}
+			if res.RecvStall || res.SendStall {
+				cands = append(cands, c15Candidate{l, d.name, fmt.Sprintf("direction %s made no progress for %s: %d of %d bytes received, %d sent (send err %q, recv err %q)",
+					d.name, e.stall, res.Recv, d.plan.Len, res.Sent, res.SendErr, res.RecvErr)})
+				continue
+			}
+			bad = true
+			r.Violate("C15:stream-incomplete:"+d.name, fmt.Sprintf("connection %d (%s) direction %s ended early: %d of %d bytes received, %d sent (send err %q, recv err %q) while neither harness end had closed",
+				sp.Idx, sp.Class, d.name, res.Recv, d.plan.Len, res.Sent, res.SendErr, res.RecvErr), sp, l)
+		default:
+			if res.SentSHA != res.RecvSHA || res.Sent != res.Recv {
+				bad = true
+				r.Violate("C15:bytes-altered:"+d.name, fmt.Sprintf("connection %d direction %s: length/SHA-256 differ at the end: sent %d %s received %d %s",
+					sp.Idx, d.name, res.Sent, res.SentSHA, res.Recv, res.RecvSHA), sp, l)
+			}
+		}
+	}
+	return cands, bad
+}
+
+func c15Streams(r *core.Run, bins bridgeBins) []*core.Proc {
+	e := &c15Engine{r: r, stall: 30 * time.Second, lives: map[int]*c15Live{}, chunkHist: map[string]int{}}
+	srv, err := bridgeNewTCPServer(e.serve)
+	if err != nil {
+		r.Broken("tcp server: " + err.Error())
+		return nil
+	}
+	defer srv.Close()
+	e.srv = srv
+	topo, err := bridgeStartTopo(r, bins, "", srv.Port)
+	if err != nil {
+		r.Broken(err.Error())
+		return nil
+	}
+	e.topo = topo
+	var values [256]bool
+	var cands []c15Candidate
+	sampled := map[int]bool{}
+	t0 := time.Now()
+	for _, round := range c15Plan(r) {
+		if !topo.Front.Alive() || !topo.Back.Alive() {
+			break
+		}
+		for _, l := range e.round(round) {
+			sp := l.Spec
+			r.Case(sp.Class)
+			cs, bad := e.judge(l, false)
+			cands = append(cands, cs...)
+			r.Add("e1_bytes_client_to_server", int(l.C2S.Recv))
+			r.Add("e1_bytes_server_to_client", int(l.S2C.Recv))
+			r.Add("e1_checkpoints_compared", l.C2S.Checkpoints+l.S2C.Checkpoints)
+			for i := range values {
+				values[i] = values[i] || l.C2S.values[i] || l.S2C.values[i]
+			}
+			if !bad && len(cs) == 0 && !sampled[sp.Conc] {
+				sampled[sp.Conc] = true
+				r.Sample(l)
+			}
+		}
+	}
+	r.Set("e1_stream_seconds", float64(int(time.Since(t0).Seconds()*10))/10)
+	// stalls: a missed progress bound counts only if the same connection plan stalls again on its own
+	for i, c := range cands {
+		if i >= 3 {
+			r.Inconclusive(fmt.Sprintf("connection %d: %s (not re-run: already three re-runs)", c.l.Spec.Idx, c.what))
+			continue
+		}
+		sp := *c.l.Spec
+		sp.Idx += 1000000
+		sp.Conc, sp.ServerFirst = 1, false
+		solo := e.round([]*c15Conn{&sp})[0]
+		cs, bad := e.judge(solo, true)
+		switch {
+		case len(cs) > 0:
+			r.Violate("C15:stream-incomplete:"+c.dir, fmt.Sprintf("connection %d (%s): %s; reproduced when the same plan was re-run alone: %s",
+				c.l.Spec.Idx, c.l.Spec.Class, c.what, cs[0].what), c.l.Spec, map[string]interface{}{"first": c.l, "solo": solo})
+		case bad:
+			// the solo run refuted the property by itself (already recorded)
+		default:
+			r.Inconclusive(fmt.Sprintf("connection %d: %s; not reproduced on the solo re-run", c.l.Spec.Idx, c.what))
+		}
+	}
+	e.mu.Lock()
+	for _, s := range e.strays {
+		r.Violate("C15:bytes-altered:c2s-header", "a connection made by the bridge backend to the far TCP end did not start with the bytes any client had written: "+s, nil, e.strays)
+	}
+	r.Max("e1_max_concurrent_bridged_connections", e.maxOpen)
+	r.Set("e1_receive_chunk_sizes", e.chunkHist)
+	e.mu.Unlock()
+	nv := 0
+	for _, v := range values {
+		if v {
+			nv++
+		}
+	}
+	r.Set("e1_distinct_byte_values_carried", nv)
+	f, b := topo.Census()
+	r.Set("e1_bridge_sockets_at_end", map[string]int{"frontend": f, "backend": b, "frontend_idle": topo.FrontBase, "backend_idle": topo.BackBase})
+	return []*core.Proc{topo.Front, topo.Back}
+}
+
+// ---- passthrough ------------------------------------------------------------------------
+
+func c15IsXFF(n string) bool { return strings.EqualFold(n, "X-Forwarded-For") }
+
+// c15ComparePassthrough is the request fidelity oracle for the bridge
+// backend's passthrough. X-Forwarded-For is the one end-to-end field a
+// reverse proxy maintains by definition: the sender's values must still be
+// there, in order, followed by nothing but the proxy's own client address.
+func c15ComparePassthrough(g *genReq, got *rawhttp.Message) []string {
+	gg := *g
+	gg.Fields = nil
+	var sentX, gotX []string
+	for _, f := range g.Fields {
+		if c15IsXFF(f.Name) {
+			sentX = append(sentX, strings.Trim(f.Value, " \t"))
+		} else {
+			gg.Fields = append(gg.Fields, f)
+		}
+	}
+	g2 := *got
+	g2.Fields = nil
+	for _, f := range got.Fields {
+		if c15IsXFF(f.Name) {
+			gotX = append(gotX, f.Value)
+		} else {
+			g2.Fields = append(g2.Fields, f)
+		}
+	}
+	bad := compareRequest(&gg, &g2)
+	if len(sentX) > 0 {
+		want, have := strings.Join(sentX, ", "), strings.Join(gotX, ", ")
+		okx := have == want
+		if !okx && strings.HasPrefix(have, want+", ") {
+			okx = net.ParseIP(have[len(want)+2:]) != nil
+		}
+		if !okx {
+			bad = append(bad, fmt.Sprintf("field %q: got %q want %q (optionally followed by the proxy's client address)", "X-Forwarded-For", trunc(gotX), trunc(sentX)))
+		}
+	}
+	return bad
+}
+
+// c15UpgradeCases are requests that look like bridge traffic but are not:
+// upgrades on other paths, non-upgrade requests on the streaming path.
+func c15UpgradeCases(rng *rand.Rand, sp string, n int, seed int64) []*genReq {
+	paths := []struct{ p, class string }{
+		{"/", "root"}, {"/ws/echo", "other"}, {sp + "/", "streaming+slash"}, {sp + "x", "streaming+suffix"},
+		{sp[:len(sp)-1], "streaming-1"}, {strings.ToUpper(sp), "streaming-upper"}, {"/prefix" + sp, "prefix+streaming"},
+		{sp + "/../other", "streaming+dotdot"}, {"/" + sp, "slash+streaming"},
+	}
+	var out []*genReq
+	for i := 0; i < n; i++ {
+		tok := fmt.Sprintf("u%dn%d", seed, i)
+		key := hex.EncodeToString(tokBytes(tok, "wskey", 12))
+		g := &genReq{Tok: tok, Method: "GET", Host: "ws-" + tok + ".example"}
+		ws := []rawhttp.Field{{Name: "Connection", Value: "Upgrade"}, {Name: "Upgrade", Value: "websocket"},
+			{Name: "Sec-WebSocket-Version", Value: "13"}, {Name: "Sec-WebSocket-Key", Value: key}}
+		switch i % 4 {
+		case 0, 1: // websocket upgrade on a path that is not the streaming path
+			p := paths[(i/2)%len(paths)]
+			g.Target = p.p
+			g.Fields = append(ws, rawhttp.Field{Name: "Origin", Value: "http://" + tok + ".example"})
+			if rng.Intn(2) == 0 {
+				g.Target += "?a=" + tok
+				g.Fields = append(g.Fields, rawhttp.Field{Name: "Sec-WebSocket-Protocol", Value: "p1, p2-" + tok})
+			}
+			g.Class = "passthrough|ws-upgrade|path:" + p.class
+		case 2: // plain request on the streaming path itself
+			g.Target = sp
+			g.Method = []string{"GET", "POST", "PUT"}[rng.Intn(3)]
+			g.Fields = []rawhttp.Field{{Name: "X-Custom", Value: randValue(rng)}}
+			if g.Method != "GET" {
+				g.BodyLen = []int{1, 1000, 70000}[rng.Intn(3)]
+				g.body = tokBytes(tok, "c02body", g.BodyLen)
+			}
+			g.Class = "passthrough|no-upgrade|path:streaming|" + g.Method
+		case 3: // upgrade to another protocol on the streaming path
+			g.Target = sp
+			g.Fields = []rawhttp.Field{{Name: "Connection", Value: "Upgrade"}, {Name: "Upgrade", Value: "verif-proto-" + tok}}
+			g.Class = "passthrough|other-proto-upgrade|path:streaming"
+		}
+		out = append(out, g)
+	}
+	return out
+}
+
+func c15Passthrough(r *core.Run, bins bridgeBins) []*core.Proc {
+	sp, err := bridgeStreamingPath()
+	if err != nil {
+		r.Broken(err.Error())
+		return nil
+	}
+	rec, err := newRecorder()
+	if err != nil {
+		r.Broken(err.Error())
+		return nil
+	}
+	defer rec.Srv.Close()
+	back, port, err := bridgeStartProc(r, "bridge-backend-pt", bins.Back, func(port int) []string {
+		return []string{"-frontend-port", strconv.Itoa(port), "-backend-port", strconv.Itoa(rec.Srv.Port())}
+	})
+	if err != nil {
+		r.Broken(err.Error())
+		return nil
+	}
+	addr := fmt.Sprintf("127.0.0.1:%d", port)
+	rng := r.Rand("c15-passthrough")
+	var gens []*genReq
+	total, nbig := r.Pick(160, 3000), r.Pick(2, 24)
+	for i := 0; i < total+nbig; i++ {
+		g := genRequest(rng, fmt.Sprintf("p%dn%d", r.Seed, i), i >= total)
+		g.Class = "passthrough|" + g.Class
+		gens = append(gens, g)
+	}
+	gens = append(gens, c15UpgradeCases(rng, sp, r.Pick(36, 360), r.Seed)...)
+	type res struct {
+		g   *genReq
+		err error
+		st  int
+	}
+	ch := make(chan *genReq)
+	results := make(chan res, len(gens))
+	var wg sync.WaitGroup
+	for w := 0; w < 4; w++ {
+		wg.Add(1)
+		go func() {
+			defer wg.Done()
+			cl := rawhttp.NewClient(addr, 60*time.Second)
+			defer cl.Close()
+			for g := range ch {
+				m, err := cl.Do(g.wire(), g.Method)
+				st := 0
+				if m != nil {
+					st = m.Status
+				}
+				results <- res{g, err, st}
+			}
+		}()
+	}
+	for _, g := range gens {
+		ch <- g
+	}
+	close(ch)
+	wg.Wait()
+	close(results)
+	sampled := 0
+	for rs := range results {
+		g := rs.g
+		r.Case(g.Class)
+		r.Add("passthrough_requests", 1)
+		got, perr := rec.get(g.Tok)
+		if len(got) == 0 {
+			r.Violate("C15:passthrough:request-not-delivered", fmt.Sprintf("non-bridge request %s %s did not reach the backend port (client saw status %d, err %v)", g.Method, g.Target, rs.st, rs.err), g, nil)
+			continue
+		}
+		if len(got) != 1 {
+			r.Violate("C15:passthrough:delivery-count", fmt.Sprintf("backend port saw request %s %d times", g.Tok, len(got)), g, nil)
+		}
+		if perr != "" {
+			r.Violate("C15:passthrough:backend-parse-error", fmt.Sprintf("the backend port could not parse passed-through request %s: %s", g.Tok, perr), g, nil)
+			continue
+		}
+		if bad := c15ComparePassthrough(g, got[0]); len(bad) > 0 {
+			r.Violate("C15:passthrough:"+diffKind(bad[0]), fmt.Sprintf("%s %s: %s", g.Method, g.Target, strings.Join(bad, "; ")), g,
+				map[string]interface{}{"received_start": got[0].StartLine, "received_fields": got[0].Fields})
+		} else if sampled < 2 && strings.Contains(g.Class, "upgrade") {
+			sampled++
+			r.Sample(map[string]interface{}{"passthrough_sent": g, "received_start_line": got[0].StartLine, "received_fields": got[0].Fields})
+		}
+	}
+	return []*core.Proc{back}
+}
+
+// ---- E2: in-process cases (worker) -------------------------------------------------------
+
+type c15E2Case struct {
+	ID    string `json:"id"`
+	Kind  string `json:"kind"`
+	Topo  string `json:"topo"`
+	Len   int    `json:"len"`
+	Write string `json:"write"`
+	Read  []int  `json:"read"`
+	Seed  int64  `json:"seed"`
+	Class string `json:"class"`
+}
+
+type c15E2Result struct {
+	ID         string   `json:"id"`
+	Class      string   `json:"class"`
+	Kind       string   `json:"kind"`
+	Problems   []string `json:"problems"`
+	Stalled    bool     `json:"stalled"`
+	Retried    bool     `json:"retried"`
+	BytesAB    int      `json:"bytes_a_to_b"`
+	BytesBA    int      `json:"bytes_b_to_a"`
+	Reads      int      `json:"reads"`
+	Writes     int      `json:"writes"`
+	EmptyWr    int      `json:"empty_writes"`
+	Skipped    int      `json:"non_text_frames_sent"`
+	Panic      string   `json:"panic"`
+	DurationMs int64    `json:"duration_ms"`
+}
+
+func c15E2Plan(r *core.Run) []c15E2Case {
+	rng := r.Rand("c15-e2")
+	var out []c15E2Case
+	add := func(kind, topo string, n int, write string, read ...int) {
+		c := c15E2Case{Kind: kind, Topo: topo, Len: n, Write: write, Read: read, Seed: rng.Int63()}
+		c.ID = fmt.Sprintf("e2-%d-%s-%s", len(out), kind, topo)
+		rb := 0
+		if len(read) > 0 {
+			rb = read[0]
+		}
+		c.Class = fmt.Sprintf("e2|%s|%s|w:%s|r:%d|%s", kind, topo, write, rb, sizeClass(n))
+		out = append(out, c)
+	}
+	reps := r.Pick(1, 6)
+	for k := 0; k < reps; k++ {
+		jit := 0
+		if k > 0 {
+			jit = rng.Intn(1000)
+		}
+		for _, topo := range []string{"handler", "pair"} {
+			add("empty-writes", topo, 1+jit, "rand+empty", 4096)
+			add("empty-writes", topo, 5000+jit, "rand+empty", 1)
+			add("empty-writes", topo, 200000+jit, "rand+empty", 4096)
+			add("small-reads", topo, 100000+jit, "rand", 1)
+			add("small-reads", topo, 300000+jit, "rand", 1, 2, 3, 7, 1, 1, 512, 513)
+			add("small-reads", topo, 70000+jit, "one", 1)
+			add("small-reads", topo, 66000+jit, "512", 1)  // message size == websocket buffer (512 raw bytes = 1024 hex digits)
+			add("small-reads", topo, 66000+jit, "513", 7)  // one byte more than the buffer
+			add("large-write", topo, 1<<20+1+jit, "one", 65536)
+			add("large-write", topo, 4<<20+jit, "one", 1024)
+			add("duplex", topo, 2<<20+jit, "rand", 1024)
+		}
+		add("raw-client-frames", "rawclient", 1000+jit, "rand")
+		add("raw-client-frames", "rawclient", 100000+jit, "rand")
+		add("raw-client-frames", "rawclient", 1<<20+jit, "rand")
+		add("raw-client-frames", "rawclient", 3000+jit, "1")
+		add("raw-server-frames", "rawserver", 50000+jit, "rand", 1)
+		add("raw-server-frames", "rawserver", 300000+jit, "rand", 7, 4096)
+		add("raw-server-frames", "rawserver", 1<<20+jit, "rand", 65536)
+		add("raw-server-frames", "rawserver", 3000+jit, "1", 1)
+	}
+	if !r.Quick() {
+		add("large-write", "handler", 16<<20+1, "one", 65536)
+		add("large-write", "pair", 16<<20+1, "one", 32768)
+	}
+	return out
+}
+
+func c15E2(r *core.Run, bin string) {
+	cases := c15E2Plan(r)
+	byID := map[string]c15E2Case{}
+	for _, c := range cases {
+		byID[c.ID] = c
+	}
+	spec, _ := json.Marshal(map[string]interface{}{"bound_ms": 30000, "cases": cases})
+	stdout, logPath, err := r.RunWorker(bin, "c15", spec, 6*time.Minute)
+	sc := bufio.NewScanner(bytes.NewReader(stdout))
+	sc.Buffer(make([]byte, 1<<20), 1<<26)
+	seen := 0
+	for sc.Scan() {
+		var res c15E2Result
+		if json.Unmarshal(sc.Bytes(), &res) != nil || res.ID == "" {
+			continue
+		}
+		seen++
+		c := byID[res.ID]
+		r.Case(res.Class)
+		r.Add("e2_bytes_ws_side_to_far_side", res.BytesAB)
+		r.Add("e2_bytes_far_side_to_ws_side", res.BytesBA)
+		r.Add("e2_reads_checked", res.Reads)
+		r.Add("e2_empty_writes", res.EmptyWr)
+		r.Add("e2_non_text_frames_interleaved", res.Skipped)
+		if res.Panic != "" {
+			r.Violate("C15:e2:panic:"+res.Kind, fmt.Sprintf("case %s panicked: %s", res.ID, res.Panic), c, res)
+		}
+		for _, p := range res.Problems {
+			kind, msg, _ := strings.Cut(p, "|")
+			switch kind {
+			case "harness":
+				r.Broken(fmt.Sprintf("e2 case %s: %s", res.ID, msg))
+			case "inconclusive":
+				r.Inconclusive(fmt.Sprintf("e2 case %s: %s", res.ID, msg))
+			default:
+				r.Violate("C15:e2:"+kind+":"+res.Kind, fmt.Sprintf("in-process case %s (%s): %s", res.ID, res.Class, msg), c, res)
+			}
+		}
+		if len(res.Problems) == 0 && (res.Kind == "raw-client-frames" || res.Kind == "empty-writes") && res.BytesAB > 4000 {
+			r.Sample(map[string]interface{}{"e2_case": c, "result": res})
+		}
+	}
+	if seen < len(cases) {
+		marks := core.CrashMarkers(logPath)
+		for _, ex := range marks {
+			r.Violate(core.CrashSignature(ex), "worker crashed while running "+fmt.Sprint(core.LastStarted(logPath, 2))+": "+ex, nil, nil)
+		}
+		if len(marks) == 0 {
+			r.Broken(fmt.Sprintf("c15 worker returned %d of %d results (%v), last started %v", seen, len(cases), err, core.LastStarted(logPath, 2)))
+		}
+	}
+}
+
+// C15 — the TCP bridge carries byte streams intact in both directions.
 func C15(r *core.Run) {
-	r.Broken("check not implemented yet")
-	r.Finish(1)
+	r.SetRule("E1: harness TCP clients -> real tcp-bridge-frontend -> real tcp-bridge-backend -> harness TCP server, rounds of 1/4/16/48 concurrent connections, both directions at once, each direction an independent stream header+PRNG(seed,conn,dir) written with sizes {1,2,1023,1024,1025,4096,32768,65537,random} and read with buffers {1,7,1024,65536}; every read is compared with the regenerated stream (prefix), length+SHA-256 at the end; class = (concurrency, who speaks first, per direction write size/read buffer/length class). Passthrough: grammar-generated requests of C02 plus websocket upgrades on other paths / plain and other-protocol requests on the streaming path through the backend binary to a raw recording backend under the request fidelity oracle. E2: connection.Handler/DialWebsocket/WebsocketNetConn in-process with empty writes, 1-byte reads, raw gorilla peers interleaving binary/ping/pong frames, single writes up to 16 MiB")
+	r.Assume("passthrough: well-formed requests only (C02 generator); hop-by-hop fields are legitimately removed, upgrade requests keep Connection/Upgrade; X-Forwarded-For may gain the proxy's client address after the sender's values; only HTTP/1.1 towards the backend binary (h2c not exercised)")
+	r.Assume("a stream that stops making progress for 30 s counts only if the same connection plan stalls again when re-run alone")
+	bins := bridgeBuild(r)
+	worker := r.MustBuild(r.BuildWorker())
+
+	procs := c15Streams(r, bins)
+	procs = append(procs, c15Passthrough(r, bins)...)
+	c15E2(r, worker)
+
+	judgeProcs(r, true, procs...)
+	killAll(procs...)
+	r.JudgeRaces(core.ParseRaceLogs(filepath.Join(r.WorkDir, "race-")))
+	r.Finish(r.Pick(150, 2500))
 }
